@@ -246,8 +246,14 @@ def run(ctx, report: Report) -> None:
     if css_in is None:
         raise AnalysisError('CSS_IN_RANGE definition not found')
 
-    # ---- R5 ---------------------------------------------------------------------------------------------
     r5 = report.rule('C18-R5', 'ordering semantics over all relative orders of (min, max, value)', floor=100)
+    range_table(ctx, report, r5, mmod, mr, itype_var)
+
+
+def range_table(ctx, report, r5, mmod, mr, itype_var):
+    """Decision table of match_range over every relative order / None-ness of (min, max, value), type and query."""
+    src, inv = ctx.src, ctx.consts
+    # ---- R5 ---------------------------------------------------------------------------------------------
     # locate the three parsed values and the condition parameter
     roles = {}
     for st in walk_no_nested(mr):
